@@ -91,7 +91,115 @@ func treesRef(q fieldpath.Path, ts []*mtree) bool {
 	return false
 }
 
+// fltExhaustive: EVERY matcher tree of depth <= 2 with at most two members a node over the paths a, b
+// and the wildcard (children: MatchAnySet or a depth-1 tree; repeated paths included), and every pair of
+// depth-1 trees, applied as an include filter to the set of all paths of length <= 3 over a, b. Tied to
+// the model; trees without a repeated path are also judged against the independent reference.
+func fltExhaustive(o *Out) {
+	fa, fb := "a", "b"
+	pa, pb := fieldpath.PathElement{FieldName: &fa}, fieldpath.PathElement{FieldName: &fb}
+	var paths []fieldpath.Path
+	for _, x := range []fieldpath.PathElement{pa, pb} {
+		paths = append(paths, fieldpath.Path{x})
+		for _, y := range []fieldpath.PathElement{pa, pb} {
+			paths = append(paths, fieldpath.Path{x, y})
+			for _, z := range []fieldpath.PathElement{pa, pb} {
+				paths = append(paths, fieldpath.Path{x, y, z})
+			}
+		}
+	}
+	zs := vx.Paths(paths)
+	pms := []fieldpath.PathElementMatcher{{PathElement: pa}, {PathElement: pb}, fieldpath.MatchAnyPathElement()}
+	type tree struct {
+		sh  *mtree
+		enc string
+		dup bool
+	}
+	anyT := tree{&mtree{wild: true}, "W", false}
+	mk := func(ms []mmember, encs []string) tree {
+		t := tree{sh: &mtree{members: ms}, enc: "NF"}
+		for i, m := range ms {
+			t.enc += "(" + encMatcher(m.path) + encs[i] + ")"
+			for _, prev := range ms[:i] {
+				if prev.path.Equals(m.path) {
+					t.dup = true
+				}
+			}
+		}
+		t.enc += ";"
+		return t
+	}
+	build := func(children []tree) []tree {
+		out := []tree{mk(nil, nil)}
+		for _, p1 := range pms {
+			for _, c1 := range children {
+				out = append(out, mk([]mmember{{p1, c1.sh}}, []string{c1.enc}))
+				for _, p2 := range pms {
+					for _, c2 := range children {
+						t := mk([]mmember{{p1, c1.sh}, {p2, c2.sh}}, []string{c1.enc, c2.enc})
+						t.dup = t.dup || c1.dup || c2.dup
+						out = append(out, t)
+					}
+				}
+			}
+		}
+		return out
+	}
+	d1 := append([]tree{anyT}, build([]tree{anyT})...)
+	d2 := build(d1)
+	var toGo func(t *mtree) *fieldpath.SetMatcher
+	toGo = func(t *mtree) *fieldpath.SetMatcher {
+		if t.wild && len(t.members) == 0 {
+			return fieldpath.MatchAnySet()
+		}
+		var mem []*fieldpath.SetMemberMatcher
+		for _, m := range t.members {
+			mem = append(mem, &fieldpath.SetMemberMatcher{Path: m.path, Child: toGo(m.child)})
+		}
+		return fieldpath.NewSetMatcher(t.wild, mem...)
+	}
+	run := func(ts []tree) {
+		enc := "t"
+		dup := false
+		var shadows []*mtree
+		for _, t := range ts {
+			enc += t.enc
+			dup = dup || t.dup
+			shadows = append(shadows, t.sh)
+		}
+		enc += ";"
+		op := "flt.apply " + zs + " " + enc
+		o.Emit(op, func() string {
+			var ms []*fieldpath.SetMatcher
+			for _, t := range ts {
+				ms = append(ms, toGo(t.sh))
+			}
+			set := fieldpath.NewSet(paths...)
+			out := fieldpath.NewIncludeMatcherFilter(ms...).Filter(set)
+			if !dup {
+				set.Iterate(func(p fieldpath.Path) {
+					if want := treesRef(p, shadows); out.Has(p) != want {
+						o.Fail("C19", "include-filter-keeps-exactly-compatible", fmt.Sprintf("matcher trees (exhaustive block): path %s kept=%v compatible=%v", vx.Path(p), out.Has(p), want),
+							"include-filter-keeps-exactly-compatible "+op, op)
+					}
+				})
+			}
+			return vx.Trie(out)
+		})
+		o.Tag("flt:exhaustive-trees")
+	}
+	for _, t := range d2 {
+		run([]tree{t})
+	}
+	for _, a := range d1 {
+		for _, b := range d1 {
+			run([]tree{a, b})
+		}
+	}
+}
+
 func domFlt(r *gen.Rng, n int, thorough bool, o *Out) {
+	fltExhaustive(o)
 	var c *typCtx
 	for i := 0; i < n; i++ {
 		cr := r.Fork(uint64(i))
